@@ -470,6 +470,17 @@ class SArr(_np.ndarray):
 
     __hash__ = None
 
+    # (added by group `tensors`, additive) ndarray.sum() on a *subclass* returns a 0-d
+    # subclass array instead of the scalar; reduce on the base-class view so that
+    # `a[:3, i].sum()` is the symbolic scalar  a0 + a1 + a2  (left to right, as np.sum)
+    def sum(self, axis=None, **kw):
+        if kw:
+            raise TranslatorUnsupported("ndarray.sum with keyword arguments")
+        r = _np.ndarray.sum(_np.asarray(self), axis=axis)
+        if isinstance(r, _np.ndarray):
+            return r.view(SArr)
+        return lift(r)
+
 
 def _obj(a):
     out = _np.empty(_np.shape(a), dtype=object).view(SArr)
